@@ -211,6 +211,8 @@ Next == \/ \E c \in P(Calls), o \in BOOLEAN, g \in BOOLEAN, fa \in {"init", "cal
         \/ \E c \in P(Calls), ov \in BOOLEAN, ig \in BOOLEAN : Call(c, ov, ig)
 Spec == Init /\ [][Next]_vars
 StepBound == steps <= MaxSteps
+\* exhaustive configs of depth > 2: only the last step is a Call (a call changes nothing, so nothing is lost)
+CallsLast == (act[1] = "Call") => steps = MaxSteps
 
 -----------------------------------------------------------------------------
 (* Invariants *)
